@@ -162,6 +162,17 @@ def letterOp (alpha : String) (l i : Nat) (s : State) : Option Op :=
     | 6 => some (.close 0)
     | 7 => some (.remove 0)
     | _ => none
+  else if alpha == "C" then   -- Community objects: several overlays per prefix, explicit toggles
+    match l with
+    | 0 => some (.overlay (PA.drop 2) true)
+    | 1 => some (.overlay (PA.drop 2) false)
+    | 2 => some (.overlay (PB.drop 2) false)
+    | 3 => some (.send 1 (PA ++ [UInt8.ofNat i]))
+    | 4 => some (.send 2 (PB ++ [UInt8.ofNat i]))
+    | 5 => some (.setTunnelCommunity true 1)
+    | 6 => some (.setAnonymity PA true)
+    | 7 => some (.setAnonymity PA false)
+    | _ => none
   else if alpha == "B" then
     match l with
     | 0 => some (.send 1 (PA ++ [UInt8.ofNat i]))
@@ -213,7 +224,7 @@ def enumCmd (alpha : String) (k cap len : Nat) (pre : List Nat) : String :=
   else " ".intercalate (enumGo alpha k s last pos (len - pre.length) #[]).toList
 
 def alphaSize (alpha : String) : Nat :=
-  if alpha == "A" then 10 else if alpha == "B" then 12 else if alpha == "T" then 8 else 0
+  if alpha == "A" then 10 else if alpha == "B" then 12 else if alpha == "T" then 8 else if alpha == "C" then 8 else 0
 
 def top (s : State) (toks : List String) : State × String :=
   match toks with
